@@ -166,14 +166,15 @@ Definition u_keys (r : ureq) : list (option key_kind) :=
 Definition u_creds (r : ureq) : list (option cred_kind) :=
   [u_cred_xauth r; u_cred_authz r; u_cred_query r; vis r (u_cred_form r); u_cred_cookie r].
 
-(* FormValue: body parameters take precedence over the query string *)
+(* FormValue: query parameters take precedence over the fields of a multipart body
+   (net/http: urlencoded body, then query, then multipart body; an upload is multipart) *)
 Definition u_sid (r : ureq) : option N :=
-  match vis r (u_sid_form r) with Some u => Some u | None => u_sid_query r end.
+  match u_sid_query r with Some u => Some u | None => vis r (u_sid_form r) end.
 
 Definition u_newacc (r : ureq) : bool :=
-  match vis r (u_topic_form r) with
+  match u_topic_query r with
   | Some b => b
-  | None => match u_topic_query r with Some b => b | None => false end
+  | None => match vis r (u_topic_form r) with Some b => b | None => false end
   end.
 
 Definition upload_body (r : ureq) : outcome :=
